@@ -243,6 +243,262 @@ def _subst_ref_aliases(fn):
     fn['body'] = tr(body)
 
 
+_FILE_CLS = 'Vector::BLF::File'
+
+
+def _canonical_members(F):
+    """The rules name the private state of the pipeline classes (m_tellg, m_fileSize, m_data, ...).  Those names are not part of any
+    interface: a maintainer may rename them.  Each such member is therefore *found by its role* - the field tellg() returns, the field
+    setBufferSize() stores its parameter in, the std::list of containers, the one mutex - and, where today's spelling differs from the name
+    the rules use, every occurrence in the facts is renamed to the canonical name once, at load.  Returns {class: {actual: canonical}}.
+    A role that cannot be found is left alone: the anchor check (core.check_anchors) then reports the missing member as analysis-broken."""
+    out = {}
+    frec = F.records.get(_FILE_CLS)
+    if not frec:
+        return out
+
+    def by_type(rec, pred):
+        c = [f for f in rec['fields'] if pred((f.get('t') or '').replace('const ', ''))]
+        return c[0]['name'] if len(c) == 1 else None
+
+    def methods(cls, simple):
+        return [f for lst in F.functions.values() for f in lst if f.get('class') == cls and f.get('simple') == simple and f.get('body')]
+
+    def own_field(cls, e):
+        e = strip_all_casts(e)
+        while isinstance(e, dict) and e.get('k') in ('Construct',) and len(e.get('args', [])) == 1:
+            e = strip_all_casts(e['args'][0])
+        if isinstance(e, dict) and e.get('k') == 'Member' and e.get('dk') == 'field':
+            b = strip_all_casts(e.get('base'))
+            if isinstance(b, dict) and b.get('k') == 'This':
+                return e['name']
+        return None
+
+    def returned(cls, simple):
+        names = set()
+        for m in methods(cls, simple):
+            if m.get('params'):
+                continue
+            for r in walk(m['body'], into_lambda=False):
+                if r.get('k') == 'Return' and r.get('value') is not None:
+                    n = own_field(cls, r['value'])
+                    if n:
+                        names.add(n)
+        return names.pop() if len(names) == 1 else None
+
+    def stored_param(cls, simple):
+        names = set()
+        for m in methods(cls, simple):
+            pids = {p_['id'] for p_ in m.get('params', [])}
+            if len(pids) != 1:
+                continue
+            for n in walk(m['body'], into_lambda=False):
+                if n.get('k') == 'Bin' and n.get('op') == '=':
+                    r = strip_all_casts(n['rhs'])
+                    if isinstance(r, dict) and r.get('k') == 'Ref' and r.get('id') in pids and own_field(cls, n['lhs']):
+                        names.add(own_field(cls, n['lhs']))
+        return names.pop() if len(names) == 1 else None
+
+    def set_true(cls, simple):
+        names = set()
+        for m in methods(cls, simple):
+            for n in walk(m['body'], into_lambda=False):
+                if n.get('k') == 'Bin' and n.get('op') == '=' and (strip_all_casts(n['rhs']) or {}).get('v') == 1 and own_field(cls, n['lhs']):
+                    names.add(own_field(cls, n['lhs']))
+        return names.pop() if len(names) == 1 else None
+
+    want = {_FILE_CLS: {}}
+    stage = {}
+    for canon, pred in (('m_readWriteQueue', lambda t: 'ObjectQueue<' in t and '*' not in t and '&' not in t),
+                        ('m_uncompressedFile', lambda t: t.endswith('::UncompressedFile') or t == 'UncompressedFile'),
+                        ('m_compressedFile', lambda t: t.endswith('::CompressedFile') or t == 'CompressedFile'),
+                        ('m_openMode', lambda t: t.lower().endswith('openmode'))):
+        a = by_type(frec, pred)
+        if a:
+            want[_FILE_CLS][a] = canon
+            if canon != 'm_openMode':
+                stage[canon] = [f['t'] for f in frec['fields'] if f['name'] == a][0]
+    for canon, cls in stage.items():
+        rec = F.records.get(cls)
+        if not rec:
+            continue
+        w = want.setdefault(cls, {})
+
+        def put(actual, name):
+            if actual and actual not in w and name not in w.values():
+                w[actual] = name
+        put(by_type(rec, lambda t: t == 'std::mutex'), 'm_mutex')
+        put(by_type(rec, lambda t: t.lower().endswith('iostate')), 'm_rdstate')
+        if canon == 'm_compressedFile':
+            put(by_type(rec, lambda t: 'fstream' in t), 'm_file')
+            continue
+        put(returned(cls, 'tellg'), 'm_tellg')
+        put(returned(cls, 'tellp'), 'm_tellp')
+        put(stored_param(cls, 'setFileSize'), 'm_fileSize')
+        put(stored_param(cls, 'setBufferSize'), 'm_bufferSize')
+        put(set_true(cls, 'abort'), 'm_abort')
+        if canon == 'm_readWriteQueue':
+            put(by_type(rec, lambda t: t.startswith('std::queue<')), 'm_queue')
+        else:
+            put(by_type(rec, lambda t: t.startswith('std::list<')), 'm_data')
+            put(returned(cls, 'gcount'), 'm_gcount')
+            put(returned(cls, 'defaultLogContainerSize'), 'm_defaultLogContainerSize')
+    # rename where the spelling differs; never onto a name another member of the class already carries
+    for cls, w in want.items():
+        rec = F.records.get(cls)
+        have = {f['name'] for f in rec['fields']}
+        ren = {a: c for a, c in w.items() if a != c and c not in have}
+        if not ren:
+            continue
+        out[cls] = ren
+        for f in rec['fields']:
+            if f['name'] in ren:
+                f['name'] = ren[f['name']]
+        for lst in F.functions.values():
+            for fn in lst:
+                if fn.get('class') == cls:
+                    for i in fn.get('inits', []) or []:
+                        if i.get('kind') == 'member' and i.get('name') in ren:
+                            i['name'] = ren[i['name']]
+                if not fn.get('body'):
+                    continue
+                for n in walk(fn['body']):
+                    if n.get('k') == 'Member' and n.get('dk') == 'field' and n.get('owner') == cls and n.get('name') in ren:
+                        n['name'] = ren[n['name']]
+                    elif n.get('k') == 'DefaultInit' and n.get('field') in ren and cls in (n.get('t') or cls):
+                        pass
+    _canonical_file_functions(F, out)
+    return out
+
+
+def _rename_function(F, cls, old, new):
+    oq, nq = cls + '::' + old, cls + '::' + new
+    if nq in F.functions or oq not in F.functions:
+        return False
+    lst = F.functions.pop(oq)
+    for f in lst:
+        f['name'] = nq
+        f['simple'] = new
+    F.functions[nq] = lst
+    rec = F.records.get(cls)
+    for m in (rec or {}).get('methods', []):
+        if m.get('name') == old:
+            m['name'] = new
+            m['qname'] = nq
+    for fl in F.functions.values():
+        for fn in fl:
+            if not fn.get('body'):
+                continue
+            for n in walk(fn['body']):
+                if n.get('k') == 'Call' and n.get('callee') == oq:
+                    n['callee'] = nq
+                    n['fn'] = new
+                elif n.get('k') in ('Ref', 'Member') and n.get('q') == oq:
+                    n['q'] = nq
+                    n['name'] = new
+                elif n.get('k') == 'Member' and n.get('dk') == 'method' and n.get('name') == old and (n.get('owner') in (None, cls)):
+                    n['name'] = new
+    return True
+
+
+def _canonical_file_functions(F, out):
+    """the private transfer functions of File, its four thread entry functions, the thread members and their loop flags / exception slots,
+    found by what they do (which stage they take from and which they hand to) and renamed to the names the rules use"""
+    cls = _FILE_CLS
+    rec = F.records.get(cls)
+    if not rec:
+        return
+
+    def stage_calls(fn):
+        res = set()
+        for n in walk(fn['body']):
+            if n.get('k') != 'Call':
+                continue
+            p = member_path(n.get('obj')) if n.get('obj') is not None else None
+            root = (p[1] if p and p[0].startswith('$') and len(p) > 1 else p[0]) if p else None
+            if root in ('m_readWriteQueue', 'm_uncompressedFile', 'm_compressedFile'):
+                res.add((root, n.get('fn')))
+            for a in n.get('args', []):
+                pa = member_path(a)
+                ra = (pa[1] if pa and pa[0].startswith('$') and len(pa) > 1 else pa[0]) if pa else None
+                if ra in ('m_uncompressedFile', 'm_compressedFile'):
+                    res.add(('arg:' + ra, n.get('fn')))
+        return res
+
+    priv = [f for lst in F.functions.values() for f in lst if f.get('class') == cls and f.get('body') and f.get('access') == 2 and not f.get('params')]
+    cat = {}
+    for f in priv:
+        sc = stage_calls(f)
+        if ('m_readWriteQueue', 'write') in sc and ('arg:m_uncompressedFile', 'read') in sc:
+            cat.setdefault('uncompressedFile2ReadWriteQueue', []).append(f)
+        elif ('m_readWriteQueue', 'read') in sc and ('arg:m_uncompressedFile', 'write') in sc:
+            cat.setdefault('readWriteQueue2UncompressedFile', []).append(f)
+        elif ('arg:m_compressedFile', 'write') in sc and ('m_uncompressedFile', 'read') in sc and not any(r == 'm_readWriteQueue' for r, _ in sc):
+            cat.setdefault('uncompressedFile2CompressedFile', []).append(f)
+        elif ('arg:m_compressedFile', 'read') in sc and ('m_uncompressedFile', 'write') in sc and not any(r == 'm_readWriteQueue' for r, _ in sc):
+            cat.setdefault('compressedFile2UncompressedFile', []).append(f)
+    ren = out.setdefault(cls, {})
+    for canon, fs in cat.items():
+        old_ = fs[0]['simple'] if len(fs) == 1 else None
+        if old_ and old_ != canon and _rename_function(F, cls, old_, canon):
+            ren[old_ + '()'] = canon + '()'
+    # thread entries: static functions of File handed to std::thread, named after the transfer function they drive
+    entry_of = {'uncompressedFile2ReadWriteQueue': 'uncompressedFileReadThread', 'compressedFile2UncompressedFile': 'compressedFileReadThread',
+                'readWriteQueue2UncompressedFile': 'uncompressedFileWriteThread', 'uncompressedFile2CompressedFile': 'compressedFileWriteThread'}
+    statics = [f for lst in F.functions.values() for f in lst if f.get('class') == cls and f.get('body') and len(f.get('params', [])) == 1 and
+               (f['params'][0].get('t') or '').replace(' ', '').endswith('File*')]
+    fieldren = {}
+    for f in statics:
+        drives = {n.get('fn') for n in walk(f['body']) if n.get('k') == 'Call' and n.get('fn') in entry_of}
+        if len(drives) != 1:
+            continue
+        canon = entry_of[drives.pop()]
+        stage = 'm_uncompressedFileThread' if canon.startswith('uncompressedFile') else 'm_compressedFileThread'
+        for n in walk(f['body']):
+            if n.get('k') == 'Member' and n.get('dk') == 'field' and n.get('owner') == cls:
+                t = n.get('t') or ''
+                if 'atomic<bool>' in t:
+                    fieldren.setdefault(n['name'], set()).add(stage + 'Running')
+                elif 'exception_ptr' in t:
+                    fieldren.setdefault(n['name'], set()).add(stage + 'Exception')
+        old = f['simple']
+        if old != canon and _rename_function(F, cls, old, canon):
+            ren[old + '()'] = canon + '()'
+    # thread members: by the entry they are started with in open()
+    for lst in list(F.functions.values()):
+        for fn in lst:
+            if fn.get('class') != cls or fn.get('simple') != 'open' or not fn.get('body'):
+                continue
+            for n in walk(fn['body']):
+                if n.get('k') == 'Call' and n.get('ck') == 'operator' and n.get('op') == '=' and (n.get('cls') or '').startswith('std::thread') and len(n.get('args', [])) == 2:
+                    lhs = strip_all_casts(n['args'][0])
+                    ents = {x.get('name') for x in walk(n['args'][1]) if x.get('k') == 'Ref' and x.get('name') in entry_of.values()}
+                    if isinstance(lhs, dict) and lhs.get('k') == 'Member' and len(ents) == 1:
+                        e = ents.pop()
+                        fieldren.setdefault(lhs['name'], set()).add('m_uncompressedFileThread' if e.startswith('uncompressedFile') else 'm_compressedFileThread')
+    have = {f['name'] for f in rec['fields']}
+    fr = {a: list(c)[0] for a, c in fieldren.items() if len(c) == 1 and a != list(c)[0] and list(c)[0] not in have}
+    if len(set(fr.values())) != len(fr):
+        fr = {}
+    for f in rec['fields']:
+        if f['name'] in fr:
+            f['name'] = fr[f['name']]
+    if fr:
+        for fl in F.functions.values():
+            for fn in fl:
+                if fn.get('class') == cls:
+                    for i in fn.get('inits', []) or []:
+                        if i.get('kind') == 'member' and i.get('name') in fr:
+                            i['name'] = fr[i['name']]
+                if fn.get('body'):
+                    for n in walk(fn['body']):
+                        if n.get('k') == 'Member' and n.get('dk') == 'field' and n.get('owner') == cls and n.get('name') in fr:
+                            n['name'] = fr[n['name']]
+        ren.update(fr)
+    if not ren:
+        out.pop(cls, None)
+
+
 class Facts:
     """merged view over all units"""
 
@@ -271,6 +527,7 @@ class Facts:
         for lst in self.functions.values():
             for f in lst:
                 _subst_ref_aliases(f)
+        self.renamed = _canonical_members(self)
         self.repo = info['repo']
         self._derived = None
 
